@@ -13,6 +13,7 @@ Inductive hop : Type :=
 | HRemove (c : nat) (k : StatusKind)
 | HSet (c : nat) (l : list StatusKind)
 | HGet (c : nat)
+| HGetEn (c : nat)                   (* get_enabled_statuses, as a bit mask *)
 | HStart (w : nat) (cs : list nat)   (* drop whatever call waiter w had, build a wait set, call wait() *)
 | HStep (w : nat)
 | HCancel (w : nat).
@@ -63,6 +64,11 @@ Fixpoint d_trace (fx : bool) (nc nch : nat) (d : dsys) (ops : list dop) : list (
       let d' := dstep fx d o in
       (dstep_out d o :: d_obs d' nc nch) :: d_trace fx nc nch d' t
   end.
+
+(* a mask read back through get_enabled_statuses shows exactly the enabled set *)
+Definition mask_shows (r : Z) (en : StatusKind -> bool) : bool :=
+  (0 <=? r) && (r <? 8192) &&
+  forallb (fun k => Bool.eqb (Z.testbit r (kind_idx k)) (en k)) all_kinds.
 
 (* ------------------------------------------------- layer A oracle (property) *)
 (* abstract state: per condition the sets enabled / changed-since-last-read; the
@@ -126,6 +132,9 @@ Definition o_step (nc nch : nat) (o : ospec) (op : dop) (line : list Z) : ospec 
             (negb (nth ch (o_owed o1) false) || (r =? 0),
              if r =? 0 then upd (o_owed o1) ch false else o_owed o1,
              upd (o_blk o1) ch (if r =? 1 then Some (obs_wakes nc obs ch) else None))
+        | DGetEnabled c =>
+            (if (c <? nc)%nat then mask_shows r (nth c (o_en o1) (fun _ => false)) else true, o_owed o1, o_blk o1)
+        | DGetTrigger c => (r =? b2z (o_trigger o1 c), o_owed o1, o_blk o1)
         | _ => (true, o_owed o1, o_blk o1)
         end in
       (* part 1: trigger value = an enabled status has changed, after every op *)
@@ -177,6 +186,7 @@ Definition h_ops (fx : bool) (s : wsys) (o : hop) : list wop * Z * Z :=
   | HRemove c k => ([WRemove c k], 0, 0)
   | HSet c l => ([WSetEnabled c l], 0, 0)
   | HGet c => ([WGetTrigger c], b2z (sys_trigger (w_sys s) c), 0)
+  | HGetEn c => ([], sys_enabled (w_sys s) c, 0)
   | HStart w cs => ([WCancel w; WTake w; WStart w cs], 0, 0)
   | HCancel w => ([WCancel w; WTake w], 0, 0)
   | HStep w =>
@@ -293,6 +303,7 @@ Definition ws_step (nc nw : nat) (o : wspec) (op : hop) (line : list Z) : wspec 
             then (upd (ws_w o) w (mkSp (sp_run sp) (sp_att sp) (sp_run sp && (m =? 0)) (sp_tt sp) (sp_ff sp)), true)
             else (upd (ws_w o) w idle, result_ok nc sp r)
         | HGet c => (ws_w o, r =? b2z (ws_trigger o1 c))
+        | HGetEn c => (ws_w o, if (c <? nc)%nat then mask_shows r (nth c en1 def) else true)
         | _ => (ws_w o, true)
         end in
       (* part 1: trigger value = an enabled status has changed, after every op *)
